@@ -33,7 +33,8 @@ type Case struct {
 
 // CompObs is what the worker reports about one component.
 type CompObs struct {
-	Name string `json:"n"`
+	Name  string `json:"n"`
+	Order int    `json:"o"` // position of the field in core.Core = creation order
 	P0   bool   `json:"p0"` // present before the reload
 	P1   bool   `json:"p1"` // present after the reload
 	PF   bool   `json:"pf"` // present in a fresh Core started with New
@@ -73,6 +74,7 @@ type c13worker struct {
 
 type compSnap struct {
 	present bool
+	order   int
 	ptr     uint64
 	fields  map[string]string
 	refs    map[string]string
@@ -116,8 +118,8 @@ func (w *c13worker) snapshot(p *core.Core) (map[string]*compSnap, []any) {
 	core.VerifC13Quiesce(p)
 	raw, pins := core.VerifC13Snapshot(p)
 	out := map[string]*compSnap{}
-	for _, c := range raw {
-		cs := &compSnap{present: c.Present, ptr: c.Ptr, fields: map[string]string{}, refs: c.Refs}
+	for i, c := range raw {
+		cs := &compSnap{present: c.Present, order: i, ptr: c.Ptr, fields: map[string]string{}, refs: c.Refs}
 		var keys []string
 		for k, v := range c.Fields {
 			v = w.unport(v)
@@ -188,6 +190,16 @@ func (w *c13worker) freshSnap(cfg []byte) (map[string]*compSnap, bool) {
 	p.Close()
 	w.fresh[string(cfg)] = s
 	return s, true
+}
+
+// envCheck turns a failure caused by the machine (limits shared with other processes) into a request to run the
+// case again.
+func (res *CaseResult) envCheck(w *c13worker) *CaseResult {
+	if strings.Contains(res.Failure, "inotify") || strings.Contains(res.Failure, "too many open files") ||
+		strings.Contains(res.Failure, "address already in use") {
+		res.Env, res.Failure = res.Failure, ""
+	}
+	return res
 }
 
 // envFailure recognises start failures caused by the machine, not by the configuration.
@@ -313,7 +325,7 @@ func (w *c13worker) run(c *Case) *CaseResult {
 		if err := w.applyAPI(p, c.Steps, has); err != nil {
 			p.Close()
 			res.Failure = "the edit was rejected: " + err.Error()
-			return res
+			return res.envCheck(w)
 		}
 	case "file":
 		fn := filepath.Join(w.dir, "new.yml")
@@ -325,13 +337,13 @@ func (w *c13worker) run(c *Case) *CaseResult {
 		if err := core.VerifC13ReloadFromFile(p, fn); err != nil {
 			p.Close()
 			res.Failure = "reload failed: " + err.Error()
-			return res
+			return res.envCheck(w)
 		}
 	}
 	if !barrier(p) {
 		p.Close()
-		res.Failure = "the Core terminated during the reload"
-		return res
+		res.Failure = "the Core terminated during the reload: " + w.logTail()
+		return res.envCheck(w)
 	}
 	s1, _ := w.snapshot(p)
 	// Some in-place reloads are asynchronous (the record cleaner assigns the new path configurations in its own
@@ -359,7 +371,7 @@ func (w *c13worker) run(c *Case) *CaseResult {
 	sort.Strings(names)
 	for _, n := range names {
 		a, b, f := s0[n], s1[n], f1[n]
-		co := CompObs{Name: n, P0: a.present, P1: b != nil && b.present, PF: f != nil && f.present}
+		co := CompObs{Name: n, Order: a.order, P0: a.present, P1: b != nil && b.present, PF: f != nil && f.present}
 		if a.present {
 			co.Sig0 = a.sig
 			co.Refs0 = refTargets(a.refs)
